@@ -229,6 +229,24 @@ def subText (params : List (String × J)) (loc : List (String × J)) (text : Str
   let out ← renderToks (subLookup params loc) (tokens text.toList)
   pure (.str (String.ofList out))
 
+mutual
+  /-- Python's `==` on resolved values: objects are equal when they have the same members, in whatever order; lists
+      element by element; everything else structurally -/
+  def pyEqJ : J → J → Bool
+    | .obj a, .obj b => a.length == b.length && pyEqMembers a b
+    | .arr a, .arr b => pyEqList a b
+    | .obj _, _ => false
+    | .arr _, _ => false
+    | x, y => x == y
+  def pyEqMembers : List (String × J) → List (String × J) → Bool
+    | [], _ => true
+    | (k, v) :: rest, b => (match J.lookup k b with | some w => pyEqJ v w | none => false) && pyEqMembers rest b
+  def pyEqList : List J → List J → Bool
+    | [], [] => true
+    | x :: xs, y :: ys => pyEqJ x y && pyEqList xs ys
+    | _, _ => false
+end
+
 /-- all results present -/
 def allSome : List (Option J) → Option (List J)
   | [] => some []
@@ -340,7 +358,7 @@ def applyFn (env : Env) (fn : String) (raw : J) (whole : Option J) (each : List 
     | [ra, rb] => do
       let a ← ra
       let b ← rb
-      pure (.bool (a == b))
+      pure (.bool (pyEqJ a b))
     | _ => none
   | some "resolve_get_attr" => pure (.str "GETATT")
   | some "resolve_get_azs" => pure (.str "GETAZS")
